@@ -39,15 +39,22 @@ MANIFEST = dict(
          "such requests that left the connection open, is a function of site, configuration and that "
          "request alone, also on a closed-and-reaccepted connection object; an HTTP/2 stream is answered "
          "from its own header fields whatever pooled request object it gets, and the connection-level "
-         "request h2r reaches the answer only through its configuration and server_name selector. "
+         "request h2r reaches the answer only through its configuration and server_name selector; on a "
+         "separate model of the error-handler bookkeeping (http_response_has_error_handler / "
+         "_call_error_handler / the loop of http_response_handler with the work of a pass as a parameter) "
+         "the member error_handler_saved_method, which request_reset does not restore, cannot influence the "
+         "outcome from error_handler_saved_status = 0, for any pass function that leaves the two members "
+         "alone (assumed of modules), and the loop comes back for an error handler at most once (two passes always answer). "
          "PARTIAL: HTTP/1.1 and HTTP/2 parsing store the same request record for GET-like requests with "
          "plain lower-case fields (tokenised fields, no body, no Host/Connection/Content-Length/TE "
          "specials); same answer over 1.0/1.1/h2 only for a bounded family of 48 requests (kernel "
          "evaluation). TESTED ONLY: that the models are the C (in-process differential on reset, "
          "keep-alive end, h2_init_stream, parse-into-recycled incl. method/version after a rejected "
-         "head; Lean connection automaton vs real server incl. blank lines, 413, 1.0 downgrade, POST to "
+         "head; the real static error-handler functions on a real request_st vs the model, single steps "
+         "exhaustively over a small scope and scripted loops -- the loop's switch is repeated in the harness; Lean connection automaton vs real server incl. blank lines, 413, 1.0 downgrade, POST to "
          "CGI); history independence for everything outside the model — CGI environment, auth, "
-         "ranges, rewrite/redirect, deflate and its disk cache, dir listing, SSI, error handlers, "
+         "ranges, rewrite/redirect, deflate and its disk cache, dir listing, SSI, what error-handler "
+         "subrequests answer, "
          "extforward, other connections (also from other client addresses), concurrent streams (also "
          "under a closed connection window), deep pipelines (> 64 KiB unprocessed requests), h2c upgrade, "
          "cold vs warm server — by the end-to-end metamorphic streams against the real server over "
@@ -57,7 +64,9 @@ MANIFEST = dict(
          "evaluation (config_patch_config is stubbed in the harness; stale-cache safety rests on the "
          "end-to-end stream), connection-level members (KF1 lives in con->proto_default_port), blank-line "
          "rules are modelled and tested but outside the theorems, a stream is atomic (no interleaving), "
-         "HPACK / flow control (C05-C07), TLS, Range (C15)",
+         "HPACK / flow control (C05-C07), TLS, Range (C15); the error-handler model is not composed with the "
+         "connection model (its passes are abstract), and `PrepOk` (no module writes the two saved members) "
+         "is a hypothesis",
     tech="Lean 4 proof over hand-written model + extracted struct/hook tables + differential correspondence "
          "(in-process C harness, real server vs Lean connection automaton) + end-to-end metamorphic "
          "testing (real server)",
@@ -1417,6 +1426,121 @@ def run_inproc(ctx):
 
 
 # =====================================================================================
+# error-handler bookkeeping (h_errh.c vs Model/ErrHandler.lean)
+# =====================================================================================
+EH_STATUS = [0, 200, 204, 301, 304, 401, 403, 404, 500, 503]
+EH_SAVED = [0, 404, 500, -404, -403, 65535]
+EH_METHODS = [0, 1, 3, 5, -1]
+
+
+def _eh_line(cfg, st, me, ve, sv, sm, hm, rbl, bi, ka, up, h2, pp, ww, ro, bl, rbf, passes=()):
+    t = ["eh"] + [str(x) for x in (cfg[0], cfg[1], cfg[2], st, me, ve, sv, sm, hm, rbl, bi, ka, up, h2, pp,
+                                   ww, ro, bl, rbf)]
+    return " ".join(t + ["%d,%d" % p for p in passes])
+
+
+def gen_eh(ctx):
+    rng = ctx.rng
+    quick = ctx.tier == "quick"
+    lines = []
+
+    def rest():
+        return (rng.choice([0, 1]), rng.choice([0, 1]), rng.choice([0, 1]), rng.choice([0, 1]),
+                rng.choice([0, 1]), rng.choice([0, 3]), rng.choice([0, 1]))
+    # exhaustive small scope, single call of http_response_has_error_handler()
+    for eh in (0, 1):
+        for eh4 in (0, 1):
+            for ic in (0, 1):
+                for st in EH_STATUS:
+                    for sv in EH_SAVED:
+                        for hm in (0, 1):
+                            for rbl, bi in ((0, 0), (5, 5), (5, 3), (-1, 7)):
+                                for ve in (-1, 1):
+                                    lines.append(_eh_line((eh, eh4, ic), st, rng.choice(EH_METHODS), ve, sv,
+                                                          rng.choice(EH_METHODS), hm, rbl, bi, rng.choice([0, 1]),
+                                                          *rest()))
+                                    ctx.dist["eh:step-exhaustive"] += 1
+    # random single steps
+    for _ in range(4000 if quick else 60000):
+        lines.append(_eh_line([rng.choice([0, 1]) for _ in range(3)], rng.choice(EH_STATUS + [rng.randrange(100, 600)]),
+                              rng.choice(EH_METHODS), rng.choice([-1, 0, 1, 2]), rng.choice(EH_SAVED),
+                              rng.choice(EH_METHODS), rng.choice([0, 1]), rng.choice([0, 0, 5, -1]),
+                              rng.choice([0, 3, 5]), rng.choice([0, 1]), *rest()))
+        ctx.dist["eh:step-random"] += 1
+    # the loop of http_response_handler() from the state request_reset() leaves (saved status 0), each case
+    # twice with different stale error_handler_saved_method values
+    for _ in range(4000 if quick else 60000):
+        cfg = [rng.choice([0, 1]) for _ in range(3)]
+        n = rng.choice([1, 2, 2, 3, 4])
+        passes = [(rng.choice([0, 200, 206, 301, 403, 404, 404, 500]), rng.choice([0, 0, 1])) for _ in range(n)]
+        me, ve = rng.choice(EH_METHODS), rng.choice([-1, 0, 1, 2])
+        rbl, bi = rng.choice([(0, 0), (0, 0), (5, 5), (5, 2), (-1, 9)])
+        ka = rng.choice([0, 1])
+        r7 = rest()
+        sv = 0 if rng.random() < 0.9 else rng.choice(EH_SAVED)
+        a, b = rng.sample(EH_METHODS + [7, 9], 2)
+        for sm in (a, b):
+            lines.append(_eh_line(cfg, 0, me, ve, sv, sm, 0, rbl, bi, ka, *r7, passes=passes))
+        ctx.dist["eh:loop-pairs:passes=%d%s" % (n, "" if sv == 0 else ":dirty-start")] += 1
+    return lines
+
+
+class EhOracle:
+    """independent statement on the implementation's output: from error_handler_saved_status == 0 the stale
+    error_handler_saved_method must not matter; the error handler is never installed twice (at most one
+    come-back); after server.error-handler ran, the original method and the original error status are back"""
+    def __init__(self):
+        self.seen = {}
+
+    def __call__(self, line, out):
+        t = line.split()
+        if len(t) <= 20 or out in ("bad-op",):
+            return None
+        sv = int(t[7])
+        key = " ".join(t[:8] + t[9:])
+        if sv == 0:
+            prev = self.seen.setdefault(key, out)
+            if prev != out:
+                return "answer depends on the stale error_handler_saved_method: %s vs %s" % (prev, out)
+        if sv != 0:
+            return None
+        passes = [tuple(int(x) for x in p.split(",")) for p in t[20:]]
+        if out == "fuel":
+            return "no answer after %d passes" % len(passes) if len(passes) >= 2 else None
+        f = out.split()
+        k = int(f[-1])
+        if k > 1:
+            return "error handler installed more than once (pass %d reached)" % k
+        eh, eh4, ic = int(t[1]), int(t[2]), int(t[3])
+        st0 = passes[0][0] or 200
+        if k == 1 and eh and (not passes[0][1] or ic):
+            if int(f[1]) != int(t[5]):
+                return "method not restored after server.error-handler: %s, request had %s" % (f[1], t[5])
+            if (not passes[1][1] or ic) and int(f[0]) != st0:
+                return "status %s after server.error-handler, the request's own error was %d" % (f[0], st0)
+        if k == 0 and st0 >= 400 and (not passes[0][1] or ic) and (eh or (eh4 and st0 == 404)) and len(passes) >= 2:
+            return "configured error handler not called for status %d" % st0
+        return None
+
+
+def eh_classify(line, out):
+    t = line.split()
+    f = out.split()
+    return "eh:%s:cfg=%s%s%s:%s" % ("loop" if len(t) > 20 else "step", t[1], t[2], t[3],
+                                     ":".join([f[0], f[3] if f[3] in ("0", "65535") else ("+" if int(f[3]) > 0 else "-"),
+                                               f[-1]]) if len(f) > 4 else out)
+
+
+def run_errh(ctx):
+    exe, err = C.build_harness("h_errh")
+    if exe is None:
+        ctx.broken.append({"kind": "harness-build", "names": ["h_errh"], "log": err[-3000:]})
+        return
+    ctx.differential("error-handler(h_errh)", [exe], "server", gen_eh(ctx), EhOracle(), eh_classify,
+                     stateless=False)
+
+
+# =====================================================================================
 # end-to-end metamorphic stream
 # =====================================================================================
 H1_MODES = ["keepalive", "recycled", "pipelined", "otherconn"]
@@ -2192,6 +2316,7 @@ def run_e2e(ctx):
 
 def run(ctx):
     run_inproc(ctx)
+    run_errh(ctx)
     run_e2e(ctx)
     ctx.rule = ("in-process: dirty request objects (real parser + every response-side setter) x recycling op, and "
                 "request heads parsed into recycled vs fresh objects; e2e: (history P, probe R) pairs over "
